@@ -2,11 +2,12 @@
 // CURRENT source tree (Go AST) as programs of the mini language of coq/Sys/SysLang.v and
 // writes them to coq/Generated/SysProgs.v:
 //
-//	sdf/triangle3.go  Triangle3Buffer.Write / Close, WriteTriangles
-//	sdf/line.go       Line2Buffer.Write / Close
-//	render/render.go  ToTriangles, ToSTL, To3MF, ToDXF, ToSVG
-//	render/*.go       writeSTL, write3MF, writeDXF, writeSVG (the function and its writer goroutine)
-//	render/march3.go  evalRoutines, layerYZ.Evaluate, marchingCubes
+//	package sdf     Triangle3Buffer.Write / Close, Line2Buffer.Write / Close, WriteTriangles
+//	package render  ToTriangles, ToSTL, To3MF, ToDXF, ToSVG
+//	                writeSTL, write3MF, writeDXF, writeSVG (the function and its writer goroutine)
+//	                evalRoutines, layerYZ.Evaluate, marchingCubes
+//
+// (every non-test file of the two directories is read; a declaration is found wherever it stands)
 //
 // coq/Sys/BufferProg.v, PipeProg.v, SchedProg.v give these programs a small-step meaning and
 // prove that it is the hand-written models of Sys/Buffer.v, Pipeline.v, Sched.v; Props/C11.v,
@@ -2392,7 +2393,8 @@ func assignsTo(stmts []ast.Stmt, v string) bool {
 
 // layerYZ.Evaluate:
 //
-//	eReq := evalReq{<wg>: new(sync.WaitGroup), <fn>: .., <out>: ARRAY}   Do PNewReq
+//	eReq := evalReq{<wg>: new(sync.WaitGroup), <fn>: .., <out>: ARRAY}   Do PNewReq   (+ Do PResetPts if the literal
+//	                                                                      also has <pts>: make(T, 0, ..) | nil)
 //	eReq.<pts> = make(T, 0, ..)                                          Do PResetPts
 //	for y := 0; y < NY; y++ { D.. for z := 0; z < NZ; z++ { B } D.. }     ForPoints B   (D: Data; the layer array is
 //	                                                                      allocated as make([]float64, (NY)*(NZ)))
@@ -2444,6 +2446,7 @@ func (p *pkg) layerEvaluate(typ, method string, r reqRoles) ([]Node, error) {
 						return nil, p.errf(s, "request not understood")
 					}
 					seen := map[string]bool{}
+					resetInLit := false
 					for _, el := range cl.Elts {
 						kv, ok := el.(*ast.KeyValueExpr)
 						if !ok {
@@ -2469,6 +2472,12 @@ func (p *pkg) layerEvaluate(typ, method string, r reqRoles) ([]Node, error) {
 							if ok, why := p.isData(kv.Value, tracked); !ok {
 								return nil, p.errf(s, "function %s", why)
 							}
+						case r.pts:
+							// the point slice may be given its empty start value in the literal
+							if v := p.resolve(kv.Value, nil); !isIdent(v, "nil") && !emptyMake(v) && !emptyLit(v) {
+								return nil, p.errf(s, "the request is created with points")
+							}
+							resetInLit = true
 						default:
 							return nil, p.errf(s, "request field %s set at creation", k.Name)
 						}
@@ -2479,6 +2488,9 @@ func (p *pkg) layerEvaluate(typ, method string, r reqRoles) ([]Node, error) {
 					req = id.Name
 					tracked[req] = true
 					out = append(out, do("PNewReq"))
+					if resetInLit {
+						out = append(out, do("PResetPts"))
+					}
 					continue
 				}
 			}
@@ -2924,9 +2936,10 @@ func Translate(repo string) ([]byte, error) {
 	}
 
 	var w strings.Builder
-	w.WriteString("(* generated by harness/sysgen from the Go source (sdf/triangle3.go, sdf/line.go, render/render.go,\n")
-	w.WriteString("   render/stl.go, 3mf.go, dxf.go, svg.go, march3.go) - do not edit.\n")
-	w.WriteString("   One program per function: its statements in source order, in the language of Sys/SysLang.v. *)\n")
+	w.WriteString("(* generated by harness/sysgen from the Go source (packages sdf and render: every file of the two\n")
+	w.WriteString("   directories is read, a declaration is found wherever it stands) - do not edit.\n")
+	w.WriteString("   One program per function: the statements of its normal form (harness/sysgen/normalize.go) in\n")
+	w.WriteString("   source order, in the language of Sys/SysLang.v. *)\n")
 	w.WriteString("From Coq Require Import List String.\nFrom Sdfx Require Import Sys.SysLang.\nImport ListNotations.\nLocal Open Scope string_scope.\n\n")
 	for _, d := range defs {
 		fmt.Fprintf(&w, "(* %s *)\nDefinition %s : list stmt := ", d.From, d.Name)
